@@ -9,8 +9,12 @@ PROP = {'streams': [('c10', 500, 20000)],
  'theorems': ['json_roundtrip',
               'json_roundtrip_with',
               'json_roundtrip_noIp',
+              'json_roundtrip_rustExt',
               'toJson_refuses_iff',
               'toJson_error_is_reserved',
+              'typed_agrees_explicit',
+              'typed_forms_parse_alike',
+              'typedAgreesExplicit_unrestricted_false',
               'typed_agrees_explicit_scalar_partial',
               'typed_agrees_explicit_entity_partial',
               'typed_agrees_explicit_ext_partial',
@@ -18,16 +22,26 @@ PROP = {'streams': [('c10', 500, 20000)],
               'store_roundtrip',
               'extRoundTrip_decimal',
               'extRoundTrip_duration',
-              'extRoundTrip_datetime'],
+              'extRoundTrip_datetime',
+              'extRoundTrip_ip_iff',
+              'extRoundTrip_ip_v4',
+              'extRoundTrip_ip_v6',
+              'extRoundTrip_ip_v6_mapped_false',
+              'extRoundTrip_ip_v6_iff',
+              'extRoundTrip_of_rustExt'],
  'assumptions': ['extension values are compared by represented value; the implementation serialises the constructor call it stored, the model the '
                  "canonical_repr (the harness re-renders values canonically for the `to` comparison and parses the implementation's own spelling for "
                  '`of`)',
-                 'ExtRoundTrip for ipaddr (Display of std::net addresses parses back) is a hypothesis of json_roundtrip, checked on the stream; it '
-                 'is false for IPv4-mapped IPv6 addresses, whose canonical_repr is not on the JSON path',
+                 'ExtRoundTrip for ipaddr (Display of std::net addresses parses back through ip()) is proved for every IPv4 value and every '
+                 'IPv6 value that is not IPv4-mapped (extRoundTrip_ip_v4 / _v6; json_roundtrip_rustExt has no hypothesis left); it is proved '
+                 'FALSE for IPv4-mapped IPv6 addresses (extRoundTrip_ip_v6_mapped_false: Display prints ::ffff:a.b.c.d/p, which ip() refuses) '
+                 '- a recorded observation; their canonical_repr is not on the JSON path of the implementation, which serialises the stored '
+                 'constructor call',
                  'error classes, not messages; object member order and set element order are canonicalised on both sides',
-                 'typed_agrees_explicit is proved in parts (scalar types on all documents; entity types; single-argument extension constructors in '
-                 'bare / implicit / explicit form); the full statement `TypedAgreesExplicit` (all nesting depths, closed record types) is a visible '
-                 '`def`, covered by the correspondence stream (implicit/explicit chosen per node) but not proved',
+                 'typed_agrees_explicit is proved for all value shapes and nesting depths (typed_agrees_explicit : TypedAgreesExplicitClosed) '
+                 'under the hypothesis ClosedType: record types are closed and their attribute maps key-sorted BTreeMaps; the statement without '
+                 'that hypothesis (`TypedAgreesExplicit`) is proved false (open record types drop undeclared members; checked example for a '
+                 'twice-declared attribute); the three `_partial` theorems remain as facts beyond conforming values (all documents / any string)',
                  "transitive closure of the parsed parents is C04's subject: store_roundtrip is stated on the parent lists written (= all "
                  'ancestors)']}
 
@@ -36,5 +50,5 @@ TEXT = ('Lean theorems over mirrors of CedarValueJson (de)serialisation, from_va
  'the code by a differential run (to / of / oftyped / ctx / ent ops) against CedarValueJson, ValueParser, Context, Entity, Entities and '
  'EntityJsonParser, plus the statement itself checked on the implementation (deep_eq after round trip, schema-based loading = data + schema actions, '
  'implicit-with-schema = explicit-without-schema, reserved keys refused).',
- "proof over a hand-written model; correspondence sampled; serde's untagged-enum behaviour is re-defined in the model; ipaddr text round trip is a "
- 'stated hypothesis')
+ "proof over a hand-written model; correspondence sampled; serde's untagged-enum behaviour is re-defined in the model; ipaddr text round trip is "
+ 'proved for IPv4 and non-IPv4-mapped IPv6 values and proved false for IPv4-mapped IPv6 values')
